@@ -76,9 +76,10 @@ class syntax_error(SourceFeedback):
             # The parser gives no position at all for some errors (e.g., a
             # NUL byte in the source); point at the start of the code.
             line = 1
-        files = report.submission.get_files_lines()
-        if filename not in files:
-            files[filename] = code.split("\n")
+        # The lines to show are those of the text that was checked, which
+        # need not be what the submission stores under that name
+        files = dict(report.submission.get_files_lines())
+        files[filename] = code.split("\n")
         if report.submission is not None:
             lines = report.submission.get_lines()
             line_offsets = report.submission.line_offsets
